@@ -902,9 +902,9 @@ def check(c):
             if age == 259200:
                 jobs.append((src, data, [(2,)], 'framing-' + name))
     l3_layer(c, fend, oracle, scratch, jobs, stats)
+    lap('L3')
     which_file_layer(c, fend, oracle, scratch, files, stats)
     lap('W')
-    lap('L3')
     c.vm_cross_sample('cli', POOL[0], POOL[1], k=25)
     lap('vm-cross')
     c.extra['outcomes'] = dict(stats)
